@@ -1020,7 +1020,7 @@ func fullLeafAlphabet(thorough bool) []*Node {
 		}
 	}
 	out = append(out, leaf("k", 5, &Val{K: "float32", F: "0.1"}), leaf("k", 6, vGoInt(3)), leaf("k", 7, vStr("2.5")), leaf("k", 8, vStr("1e3")), leaf("k", 9, vInt(math.MaxInt64)))
-	strs := []string{"x", "", "a b", `a"`, `"`, `\`, `a\b`, `a\`, `\\`, "(", ")", "a(b)", "a,b", "é", "日本", "xé", "and", "a\tb", "a\nb", `a\"b`, " ", "x y z"}
+	strs := []string{"x", "", "a b", `a"`, `"`, `\`, `a\b`, `a\`, `\\`, "(", ")", "a(b)", "a,b", "é", "日本", "xé", "and", "a\tb", "a\nb", `a\"b`, " ", "x y z", "a\u00a0b", "\u3000", "x\v", "\fx", "a\u2028", "\u0085"}
 	for op := 10; op <= 13; op++ {
 		for _, s := range strs {
 			out = append(out, leaf("k", op, vStr(s)))
@@ -1029,8 +1029,9 @@ func fullLeafAlphabet(thorough bool) []*Node {
 	out = append(out, leaf("k", opIn, vStr("x,y")), leaf("k", opIn, vStrs("x", "y")), leaf("k", opIn, vStrs("x")), leaf("k", opIn, vStrs()),
 		leaf("k", opIn, vStrs("x,y", "z")), leaf("k", opIn, vStrs("a b", "c")), leaf("k", opIn, vStrs("é", "日")), leaf("k", opIn, vStrs("", "x")),
 		leaf("k", opIn, vStrs("x", "")), leaf("k", opIn, vStrs(`a\`, "b")), leaf("k", opIn, vStrs(`a"`, `b`)), leaf("k", opIn, vStr("a b,c")),
-		leaf("k", opIn, vStr("x,y,z")), leaf("k", opIn, vStrs("x", "y", "z")), leaf("k", opIn, vStr(",")), leaf("k", opIn, vStrs("(", ")")))
-	for _, r := range []string{"^a", "a$", "a b", `\d+`, `a\.b`, "[a-c]+", "(a|b)", "é+", `"`, "", `^King `, `\\`, `a\sb`, "x"} {
+		leaf("k", opIn, vStr("x,y,z")), leaf("k", opIn, vStrs("x", "y", "z")), leaf("k", opIn, vStr(",")), leaf("k", opIn, vStrs("(", ")")),
+		leaf("k", opIn, vStrs("a\u00a0b", "c")), leaf("k", opIn, vStrs("x", "\u3000")), leaf("k", opIn, vStr("x\v,y")))
+	for _, r := range []string{"a\u00a0b", "\u2028+", "^a", "a$", "a b", `\d+`, `a\.b`, "[a-c]+", "(a|b)", "é+", `"`, "", `^King `, `\\`, `a\sb`, "x"} {
 		out = append(out, leaf("k", opMatches, vStr(r)))
 	}
 	out = append(out, leaf("k", opIs, vBool(true)), leaf("k", opIs, vBool(false)))
@@ -1039,7 +1040,7 @@ func fullLeafAlphabet(thorough bool) []*Node {
 	}
 	out = append(out, leaf("k", opExists, vNil()), leaf("k", opExists, vStr("ignored")))
 	// keys
-	for _, k := range []string{"", "a b", `a"`, `a\b`, "(", "é", "日本", "a.b", "map.#", "and", "not", "a,b"} {
+	for _, k := range []string{"", "a b", `a"`, `a\b`, "(", "é", "日本", "a.b", "map.#", "and", "not", "a,b", "a\u00a0b", "\u3000", "k\v", "\u0085k"} {
 		out = append(out, leaf(k, opEquals, vGoInt(1)), leaf(k, opSameAs, vStr("x")), leaf(k, opExists, vNil()))
 	}
 	// rejected by Check (must be filtered, never printed)
@@ -1307,6 +1308,24 @@ func run(c *vlib.Ctx) {
 		maxLen = 4
 	}
 	universe := append(stringsOver(alpha, maxLen), keywordTokens...)
+	// Unicode white space that is NOT a separator of the documented grammar (ordinary word characters):
+	// every string to length 3 over the base alphabet extended by these runes (alone, start, middle, end, next to quotes/backslashes/blanks)
+	otherSpace := []string{"\v", "\f", "\u0085", "\u00a0", "\u2028", "\u3000"}
+	if thorough {
+		otherSpace = append(otherSpace, "\u1680", "\u2000", "\u200a", "\u2029", "\u202f", "\u205f")
+	}
+	{
+		have := map[string]bool{}
+		for _, u := range universe {
+			have[u] = true
+		}
+		for _, u := range stringsOver(append(append([]string{}, alpha...), otherSpace...), 3) {
+			if !have[u] {
+				have[u] = true
+				universe = append(universe, u)
+			}
+		}
+	}
 	type slot struct {
 		name string
 		mk   func(s string) *Node
@@ -1344,8 +1363,8 @@ func run(c *vlib.Ctx) {
 		{"in-negated-group", func(h *Node) *QSpec { return &QSpec{Prefix: "db:", Where: not(and(h, defLeaf(0)))} }},
 	}
 	wheres := []*Node{nil, defLeaf(0), and(defLeaf(0), defLeaf(1))}
-	c.Scenario(fmt.Sprintf("tokens: %d strings (alphabet of %d symbols to length %d + %d control words) x (%d condition slots x %d contexts + prefix/orderby slots x 3 where settings x 2 tails)",
-		len(universe), len(alpha), maxLen, len(keywordTokens), len(slots), len(ctxs)))
+	c.Scenario(fmt.Sprintf("tokens: %d strings (alphabet of %d symbols to length %d + the same alphabet extended by %d non-separator Unicode white-space runes to length 3 + %d control words) x (%d condition slots x %d contexts + prefix/orderby slots x 3 where settings x 2 tails)",
+		len(universe), len(alpha), maxLen, len(otherSpace), len(keywordTokens), len(slots), len(ctxs)))
 	before = st.states
 	parallel(c, st, len(universe), func(i int, l *localStats, hb *heartbeat) {
 		s := universe[i]
@@ -1368,8 +1387,8 @@ func run(c *vlib.Ctx) {
 	c.Sample(map[string]any{"stage": "tokens", "object": ctxs[6].mk(slots[0].mk(`a\ 日`)).goExpr()})
 
 	// ---- stage C: clause values ----
-	cp := []string{"db:", "db:k", "db:k/é", "db:k/日本", "db", ":", "", "db:a:b", "db:k/", ":k"}
-	cob := []string{"", "a", "a.b", "é", "limit"}
+	cp := []string{"db:", "db:k", "db:k/é", "db:k/日本", "db", ":", "", "db:a:b", "db:k/", ":k", "db:k\u00a0x", "db:\u3000", "d\vb:k"}
+	cob := []string{"", "a", "a.b", "é", "limit", "a\u3000b", "\u00a0", "a\f"}
 	cn := []int{0, 1, 10, math.MaxInt32, math.MaxInt32 + 1, -1, math.MaxInt64}
 	cw := []*Node{nil, defLeaf(0), or(defLeaf(0), and(defLeaf(1), defLeaf(2)))}
 	var cs []*QSpec
@@ -1456,7 +1475,7 @@ func run(c *vlib.Ctx) {
 	}
 
 	// ---- stage P1: token strings ----
-	ptoks := []string{"query", "db:k", "where", "(", ")", "and", "or", "not", "a", "==", "1", "sameas", `"x y"`, "orderby", "limit", "é", `\`, `""`, "offset"}
+	ptoks := []string{"query", "db:k", "where", "(", ")", "and", "or", "not", "a", "==", "1", "sameas", `"x y"`, "orderby", "limit", "é", `\`, `""`, "offset", "b\u3000c"}
 	seqCount := func(k, n int) int {
 		t, p := 0, 1
 		for i := 0; i <= n; i++ {
@@ -1519,7 +1538,7 @@ func run(c *vlib.Ctx) {
 	c.Sample(map[string]any{"stage": "token strings", "text": `query db:k where not (é sameas "x y")`, "also": "all other strings of <= 5 tokens, e.g. " + strings.Join(append([]string{"query", "db:k"}, seqAt(ptoks, n2-12345)...), " ")})
 
 	// ---- stage P2: character strings ----
-	chars := []string{"a", "1", " ", `"`, `\`, "(", ")", ",", "é", "=", "x", "\t"}
+	chars := []string{"a", "1", " ", `"`, `\`, "(", ")", ",", "é", "=", "x", "\t", "\u00a0", "\v"}
 	clen := vlib.Pick(c, 4, 6)
 	n3 := seqCount(len(chars), clen)
 	pres := []string{"", "query ", "query db:k where ", "query db:k where a sameas ", "query db:k where a == 1 orderby ", "query db:k where (a == 1 and a sameas "}
